@@ -95,7 +95,11 @@ def generate(ctx):
         if k < 0.25:
             rel.insert(rng.randint(0, len(rel)), G.pm(TIMESIG, 0, None, num=n, den=d)); kind = "matching"
         elif k < 0.4:
-            rel.insert(rng.randint(0, len(rel)), G.pm(TIMESIG, 0, None, num=n + 1, den=d)); kind = "conflicting"
+            # conflicting value: different length, or the same bar length spelled differently (6/8 in a 3/4 bar)
+            cn, cd = rng.choice([(n + 1, d), (2 * n, 2 * d), (2 * n, 2 * d), (n, 2 * d)] + ([(n // 2, d // 2)] if n % 2 == 0 and d % 2 == 0 else []))
+            rel.insert(rng.randint(0, len(rel)), G.pm(TIMESIG, 0, None, num=cn, den=cd)); kind = "conflicting"
+            if 96 * cn * d == 96 * n * cd:
+                ctx.count("sig:conflicting-same-length")
         elif k < 0.55:
             rel.insert(0, G.pm(TIMESIG, 0, None, num=n, den=d))
             rel.insert(rng.randint(1, len(rel)), G.pm(TIMESIG, 0, None, num=n, den=d * 2 if rng.random() < 0.5 else d)); kind = "two"
